@@ -626,6 +626,8 @@ class NR1dNsMinimizerImpl(
                        smaller than the specified precision.
                     1: The minimization did NOT converge within self.max_steps
                        number of steps
+                    2: The minimization did NOT converge, because the
+                       Newton-Raphson step is not a number.
 
             warnreason: str
                 The description for the set warn flag.
@@ -671,6 +673,16 @@ class NR1dNsMinimizerImpl(
             x[0] = ns
             (f, fprime, fprimeprime) = func(x, *func_args)
             step = -fprime / fprimeprime
+
+            # Exit optimization if the NR step is undefined, e.g. because the
+            # first and second derivatives are both zero. The fit is
+            # considered NOT converged.
+            if np.isnan(step):
+                status['warnflag'] = 2
+                status['warnreason'] = (
+                    'The Newton-Raphson step is not a number. '
+                    'NR optimization did not converge.')
+                break
 
             # Exit optimization if ns is at boundary but next step would be outside.
             if (ns == ns_min and step < 0.0) or (ns == ns_max and step > 0.0):
